@@ -245,7 +245,7 @@ pub fn run(ctx: &mut Ctx) {
   }
 
   // ---- (3) random histories: per-clock vs one batch vs random partition vs reference; also through IO
-  let nhist: u64 = if thorough { 60_000 } else { 6_000 };
+  let nhist: u64 = if thorough { 3_000_000 } else { 6_000 };
   for hi in 0..nhist {
     let u = unit;
     unit += 1;
